@@ -157,9 +157,10 @@ def ob_d(ob):
     ob.bound("batch of 2 molecules, requested states in {2,4}; pair counts symbolic integers in [1,12] each (padded width 12), subspace cap 60; paths forked on the integer values by the solver")
     import io, contextlib
 
-    for nroots in (2, 4):
+    top = 12
+    for nroots in ((2, 4) if ob.tier == "quick" else (1, 2, 4, 8)):
         n0, n1 = z3.Int("nov0"), z3.Int("nov1")
-        assm = [n0 >= 1, n0 <= 12, n1 >= 1, n1 <= 12]
+        assm = [n0 >= 1, n0 <= top, n1 >= 1, n1 <= top]
         ea = torch.arange(1, 13, dtype=torch.float64).repeat(2, 1) * 0.37
 
         def fn():
